@@ -48,7 +48,7 @@ func TestVerifC16(t *testing.T) {
 		if r.Response || r.Method == "RegisterNamespace" || r.Method == "DeprecateNamespace" {
 			continue
 		}
-		ps := vrt.EnumeratePaths(r.MD, vrt.IsNamespaceNameField, vrt.WalkOptions{MaxPerType: 2, ThroughBlobs: true})
+		ps := vrt.EnumeratePaths(r.MD, vrt.IsNamespaceNameField, vrt.WalkOptions{MaxPerType: vfMaxPerType(), ThroughBlobs: true})
 		for i := range ps {
 			jobs = append(jobs, job{r, ps, i})
 		}
